@@ -53,6 +53,12 @@ type TraceGroup struct {
 // ValidateEngineTraces checks events (a concatenation of runs, each starting with a Reset
 // event) against Engine_Trace.tla. One TLC process per (protocol, sizes) group, in parallel.
 func ValidateEngineTraces(events []ev.Event, f EngineFlags, module string, extraCfg string) ([]TraceGroup, error) {
+	return ValidateTraces(events, f, module, "TraceSpec", "TraceInv", extraCfg)
+}
+
+// ValidateTraces is ValidateEngineTraces for a trace module that extends Engine_Trace with its own
+// specification and invariant names.
+func ValidateTraces(events []ev.Event, f EngineFlags, module, specName, invName, extraCfg string) ([]TraceGroup, error) {
 	type key struct {
 		proto      string
 		nold, nnew int
@@ -117,8 +123,8 @@ func ValidateEngineTraces(events []ev.Event, f EngineFlags, module string, extra
 				enc.Encode(e)
 			}
 			tf.Close()
-			cfg := "SPECIFICATION TraceSpec\n" + EngineConstants(k.proto, k.nold, k.nnew, f) +
-				"INVARIANTS TraceInv\nCONSTRAINT HighWater\nPOSTCONDITION TraceAccepted\nCHECK_DEADLOCK FALSE\n"
+			cfg := "SPECIFICATION " + specName + "\n" + EngineConstants(k.proto, k.nold, k.nnew, f) +
+				"INVARIANTS " + invName + "\nCONSTRAINT HighWater\nPOSTCONDITION TraceAccepted\nCHECK_DEADLOCK FALSE\n"
 			if f.WaitingExact {
 				cfg += "PROPERTIES TraceWaitingExact\n"
 			}
